@@ -16,6 +16,7 @@ func checkC03(p *Prog, r *Result, tier string) {
 	r.Rule("C03.R3", "decision table of the field-level constraint check (finite evaluation over unique x |equal range| in {0,1,>=2} x exists x same id): the uniqueness error is returned iff unique and (more than one holder, or one holder that is not the object itself)", 1)
 	r.Rule("C03.R4", "a delete releases every field: the index delete visits every field index with the field-level delete and removes both membership entries, without early exit", 2)
 	r.Rule("C03.R5", "the canonical value is what is checked: on insertion entries the accepting insertion is called only after the case transforms (shared with C15/C16)", 2)
+	r.Rule("C03.R8", "an accepted replacement is not undone by un-indexing: on the insertion entries no path un-indexes an object after the accepting insertion of the live index returned (for an update the previous entries would be lost while the previous file stays; expected count 0: no roll-back by un-indexing exists)", 0)
 	r.Rule("C03.R7", "object ids are never reused at run time (shared with C20.R3)", 1)
 	r.NotDecided = []string{"that the equal range computed by bisection contains exactly the equal entries (C02, not decided)", "that the decoder restores the id counter past the maximum", "equality semantics of values"}
 	c := computeClosures(p)
@@ -59,8 +60,23 @@ func checkC03(p *Prog, r *Result, tier string) {
 					l.ok("C03.R2", fn, "live index writer is accept or delete", where)
 				case inUnindex:
 					l.ok("C03.R2", fn, "live index writer is accept or delete", where)
+					// R8: only on the insertion entries (hooks run there)
+					if c.Of(l.root).Has(EHookV) {
+						if st.User&4 != 0 {
+							l.bad("C03.R8", FuncName(l.root), "no un-indexing after the accepting insertion", "an insertion entry un-indexes the object after the accepting insertion replaced its entries (a roll-back): when the object was already stored, its previous entries are gone while its previous file stays, another object can then take its unique values", where, x, st, ev.Instr)
+						} else {
+							l.ok("C03.R8", FuncName(l.root), "no un-indexing after the accepting insertion", where)
+						}
+					}
 				default:
 					l.bad("C03.R2", fn, "live index writer is accept or delete", "the live object index is modified outside the accepting insertion and the index delete: a value can enter the index without the uniqueness check", where, x, st, ev.Instr)
+				}
+			case ev.Kind == EvCallRet && isAccept(ev.Callee):
+				if len(st.frames) > 0 {
+					args := ev.Instr.(ssa.CallInstruction).Common().Args
+					if len(args) > 0 && x.tagsOf(st, args[0])&TLive != 0 {
+						st.User |= 4
+					}
 				}
 			case ev.Kind == EvCall && isAccept(ev.Callee):
 				// R5 only where hooks run (insertion entries)
